@@ -317,7 +317,32 @@ ghost(F_RES, "ReservoirSampler._add_one", "self._total_count += 1", "self.g_stre
 ghost(F_RES, "ReservoirSampler.merge", "combined_total = self._total_count + other._total_count",
       "self.g_stream |= other.g_stream")
 
+# ============================================================================ t-digest: helpers
+F_TD = "happysimulator/sketching/tdigest.py"
+VR = Vec(Real)
+
+
+def buf_at(o, j):
+    return mk_num(z3.Select(VR.dt.arr(o._buffer.term), _t(j)))
+
+
+# TDigest.add: for _ in range(count): self._buffer.append(value)
+loop(F_TD, "TDigest.add", 1, modifies=[("TDigest", "_buffer")], inv=[
+    ("one-copy-per-round", lambda L: slen(L.self._buffer) == slen(L.old(L.self)._buffer) + L.i),
+    ("appended-copies-are-the-value", lambda L: forall(Int, lambda j: implies(
+        (slen(L.old(L.self)._buffer) <= j) & (j < slen(L.self._buffer)), buf_at(L.self, j) == L.value))),
+    ("earlier-buffer-kept", lambda L: forall(Int, lambda j: implies(
+        (0 <= j) & (j < slen(L.old(L.self)._buffer)), buf_at(L.self, j) == buf_at(L.old(L.self), j)))),
+])
+
+from specs.common import *  # noqa: E402,F401
 from happysimulator.sketching.bloom_filter import BloomFilter  # noqa: E402
+from happysimulator.sketching.tdigest import TDigest, _Centroid as TCentroid  # noqa: E402
+from happysimulator.sketching.merkle_tree import MerkleTree, MerkleNode, KeyRange  # noqa: E402
+from happysimulator.sketching.base import Sketch  # noqa: E402
+from happysimulator.components.sketching.sketch_collector import SketchCollector  # noqa: E402
+from happysimulator.components.sketching.topk_collector import TopKCollector  # noqa: E402
+from happysimulator.components.sketching.quantile_estimator import QuantileEstimator  # noqa: E402
 from happysimulator.sketching.reservoir import ReservoirSampler  # noqa: E402
 from happysimulator.sketching.hyperloglog import HyperLogLog  # noqa: E402
 from happysimulator.sketching.topk import TopK, _Counter  # noqa: E402
@@ -707,6 +732,9 @@ cls(ReservoirSampler,
 fn(ReservoirSampler, "_add_one", args={"item": ITEM}, uses=RNG, modifies=["_reservoir", "_total_count", "g_stream"],
    ensures=[
     ("counts-one", lambda s: s.self._total_count == s.old(s.self)._total_count + 1),
+    ("holds-min-k-n-items", lambda s: slen(s.self._reservoir) == vmin(s.self._size, s.self._total_count)),
+    ("held-items-are-stream-items", lambda s: forall(Int, lambda j: implies(
+        (0 <= j) & (j < slen(s.self._reservoir)), seen(s.self, res_at(s.self, j))))),
     ("stream-grows-by-item", lambda s: forall(Int, lambda x: iff(seen(s.self, x), seen(s.old(s.self), x) | (x == s.item)))),
     ("appended-while-room", lambda s: implies(slen(s.old(s.self)._reservoir) < s.self._size,
         (res_at(s.self, slen(s.old(s.self)._reservoir)) == s.item) & forall(Int, lambda j: implies(
@@ -734,3 +762,377 @@ fn(ReservoirSampler, "merge", args={"other": Ref(ReservoirSampler)}, uses=RNG,
     ("other-unchanged", lambda s: same(s.self, s.other) | unchanged(s, s.other))],
    raises={ValueError: [("only-capacity-mismatch", lambda s: s.self._size != s.other._size),
                         ("frame", lambda s: unchanged(s, s.self))]})
+
+# ============================================================================ t-digest (the parts within reach)
+# quantile / cdf / _compress / _flush / merge: bounded native stand-in `tdigest-quantiles` below.
+cls(TCentroid, fields={"mean": Real, "count": Int})
+cls(TDigest,
+    fields={"_compression": Real, "_centroids": Seq(Ref(TCentroid)), "_total_count": Int, "_min_value": Opt(Real),
+            "_max_value": Opt(Real), "_buffer": VR, "_buffer_size": Int},
+    const=["_compression", "_buffer_size"],
+    inv=[("count-nonneg", lambda o: o._total_count >= 0),
+         ("min-max-known-iff-something-was-added", lambda o: _td_minmax_shape(o))])
+
+
+def _td_minmax_shape(o):
+    lo, hi = o._min_value, o._max_value
+    if lo is None or hi is None:
+        return (lo is None) and (hi is None) and (o._total_count == 0)
+    return (o._total_count > 0) & (lo <= hi)
+
+
+fn(TCentroid, "merge", args={"other": Ref(TCentroid)},
+   requires=[lambda s: (s.self.count >= 1) & (s.other.count >= 1)],
+   ensures=[
+    ("weights-add-up", lambda s: s.result.count == s.self.count + s.other.count),
+    ("mean-lies-between-the-merged-means", lambda s:
+        (vmin(s.self.mean, s.other.mean) <= s.result.mean) & (s.result.mean <= vmax(s.self.mean, s.other.mean))),
+    ("inputs-unchanged", lambda s: unchanged(s, s.self) & unchanged(s, s.other))])
+
+stub_of(TDigest, "_flush", returns=None, modifies=["_buffer", "_centroids"], ensures=[lambda s: slen(s.self._buffer) == 0])
+
+
+def _td_add_min(s):
+    lo = s.old(s.self)._min_value
+    new = s.self._min_value
+    if new is None:
+        return False
+    return new == (s.value if lo is None else vmin(lo, s.value))
+
+
+def _td_add_max(s):
+    hi = s.old(s.self)._max_value
+    new = s.self._max_value
+    if new is None:
+        return False
+    return new == (s.value if hi is None else vmax(hi, s.value))
+
+
+fn(TDigest, "add", args={"value": Real, "count": Int}, uses=[(TDigest, "_flush")],
+   modifies=["_buffer", "_centroids", "_total_count", "_min_value", "_max_value"],
+   ensures=[
+    # "t-digest quantiles lie within the observed minimum and maximum": min / max are the stream's
+    ("min-is-the-streams-minimum", lambda s: implies(s.count > 0, _td_add_min(s))),
+    ("max-is-the-streams-maximum", lambda s: implies(s.count > 0, _td_add_max(s))),
+    ("weight-counted", lambda s: s.self._total_count == s.old(s.self)._total_count + s.count),
+    ("zero-count-is-a-no-op", lambda s: implies(s.count == 0, unchanged(s, s.self)))],
+   raises={ValueError: [("only-negative-count", lambda s: s.count < 0), ("frame", lambda s: unchanged(s, s.self))]})
+
+fn(TDigest, "min", ensures=[("is-recorded-minimum", lambda s: _same_opt(s.result, s.self._min_value))])
+fn(TDigest, "max", ensures=[("is-recorded-maximum", lambda s: _same_opt(s.result, s.self._max_value))])
+
+
+def _same_opt(a, b):
+    if a is None or b is None:
+        return (a is None) and (b is None)
+    return a == b
+
+
+# ============================================================================ Merkle tree (the parts within reach)
+# _build_tree / _diff_nodes / build / update / remove: bounded native stand-in `merkle-diff` below.
+KR = valueclass("KeyRange", [KeyRange], [("start", Str), ("end", Str)])
+fn(KeyRange, "contains", self_ty=KR, args={"key": Str}, inv=False, ensures=[
+    ("inclusive-range", lambda s: iff(s.result, (s.self.start <= s.key) & (s.key <= s.self.end)))])
+
+# ============================================================================ collectors: handle_event feeds the sketch once
+class _ValueFn:
+    """spec-side stand-in for a user value extractor: an arbitrary function; ghost fields record its answer"""
+
+    def __call__(self, event):
+        raise NotImplementedError
+
+
+class _WeightFn(_ValueFn):
+    pass
+
+
+cls(_ValueFn, ghost={"g_none": Bool, "g_val": Int, "g_calls": Int}).alloc = False
+cls(_WeightFn, ghost={"g_val": Int, "g_calls": Int}).alloc = False
+stub_of(_ValueFn, "__call__", returns=Opt(Int), modifies=["g_none", "g_val", "g_calls"], ensures=[
+    lambda s: s.self.g_calls == s.old(s.self).g_calls + 1,
+    lambda s: s.self.g_none if s.result is None else (Not(s.self.g_none) & (s.self.g_val == s.result))])
+stub_of(_WeightFn, "__call__", returns=Int, modifies=["g_val", "g_calls"], ensures=[
+    lambda s: s.self.g_calls == s.old(s.self).g_calls + 1, lambda s: s.self.g_val == s.result])
+
+cls(Sketch, ghost={"g_adds": Int, "g_item": Int, "g_count": Int})
+stub_of(Sketch, "add", returns=None, modifies=["g_adds", "g_item", "g_count"], ensures=[
+    lambda s: s.self.g_adds == s.old(s.self).g_adds + 1,
+    lambda s: (s.self.g_item == s.item) & (s.self.g_count == s.count)])
+
+cls(SketchCollector, fields={"_sketch": Ref(Sketch), "_value_extractor": Ref(_ValueFn),
+                             "_weight_extractor": OptRef(_WeightFn), "_events_processed": Int})
+
+
+def _weight_used(s):
+    w = s.self._weight_extractor
+    return 1 if w is None else w.g_val
+
+
+fn(SketchCollector, "handle_event", args={"event": Ref(Event)},
+   uses=[(_ValueFn, "__call__"), (_WeightFn, "__call__"), (Sketch, "add")],
+   ensures=[
+    ("counts-the-event", lambda s: s.self._events_processed == s.old(s.self)._events_processed + 1),
+    ("value-extracted-once", lambda s: s.self._value_extractor.g_calls == s.old(s.self._value_extractor).g_calls + 1),
+    ("sketch-fed-exactly-once-iff-a-value-was-extracted", lambda s:
+        s.self._sketch.g_adds == s.old(s.self._sketch).g_adds + ite(s.self._value_extractor.g_none, 0, 1)),
+    ("sketch-fed-the-events-value-and-weight", lambda s: implies(Not(s.self._value_extractor.g_none),
+        (s.self._sketch.g_item == s.self._value_extractor.g_val) & (s.self._sketch.g_count == _weight_used(s)))),
+    ("emits-nothing", lambda s: isinstance(s.result, list) and len(s.result) == 0)])
+
+# TopKCollector / QuantileEstimator own a concrete sketch: its `add` is used through the clauses proved above
+stub_of(TopK, "add", returns=None, modifies=["_counters", "_total_count", "g_true"], ensures=[
+    lambda s: forall(Int, lambda x: tru(s.self, x) == tru(s.old(s.self), x) + ite(x == s.item, s.count, 0)),
+    lambda s: s.self._total_count == s.old(s.self)._total_count + s.count])
+cls(TopKCollector, fields={"_topk": Ref(TopK), "_value_extractor": Ref(_ValueFn),
+                           "_count_extractor": OptRef(_WeightFn), "_events_processed": Int})
+
+
+def _count_used(s):
+    w = s.self._count_extractor
+    return 1 if w is None else w.g_val
+
+
+fn(TopKCollector, "handle_event", args={"event": Ref(Event)},
+   requires=[lambda s: True if s.self._count_extractor is None else True],
+   uses=[(_ValueFn, "__call__"), (_WeightFn, "__call__"), (TopK, "add")],
+   ensures=[
+    ("counts-the-event", lambda s: s.self._events_processed == s.old(s.self)._events_processed + 1),
+    ("true-count-of-the-events-value-grows-by-its-weight-once", lambda s: forall(Int, lambda x:
+        tru(s.self._topk, x) == tru(s.old(s.self._topk), x) + ite(
+            Not(s.self._value_extractor.g_none) & (x == s.self._value_extractor.g_val), _count_used(s), 0))),
+    ("emits-nothing", lambda s: isinstance(s.result, list) and len(s.result) == 0)])
+
+stub_of(TDigest, "add", returns=None, modifies=["_buffer", "_centroids", "_total_count", "_min_value", "_max_value"],
+        ensures=[lambda s: s.self._total_count == s.old(s.self)._total_count + s.count])
+
+
+class _RealFn(_ValueFn):
+    pass
+
+
+cls(_RealFn, ghost={"g_none": Bool, "g_rval": Real, "g_calls": Int}).alloc = False
+stub_of(_RealFn, "__call__", returns=Opt(Real), modifies=["g_none", "g_rval", "g_calls"], ensures=[
+    lambda s: s.self.g_calls == s.old(s.self).g_calls + 1,
+    lambda s: s.self.g_none if s.result is None else (Not(s.self.g_none) & (s.self.g_rval == s.result))])
+cls(QuantileEstimator, fields={"_tdigest": Ref(TDigest), "_value_extractor": Ref(_RealFn), "_events_processed": Int})
+fn(QuantileEstimator, "handle_event", args={"event": Ref(Event)},
+   uses=[(_RealFn, "__call__"), (TDigest, "add")],
+   ensures=[
+    ("counts-the-event", lambda s: s.self._events_processed == s.old(s.self)._events_processed + 1),
+    ("digest-fed-exactly-once-iff-a-value-was-extracted", lambda s: s.self._tdigest._total_count
+        == s.old(s.self._tdigest)._total_count + ite(s.self._value_extractor.g_none, 0, 1)),
+    ("emits-nothing", lambda s: isinstance(s.result, list) and len(s.result) == 0)])
+
+# ============================================================================ lemmas: merge == sketch of the concatenation
+# Notation: sk(S) = state of a fresh sketch after add(x) for x in S.  The step contracts proved above give
+#   sk([]) = ZERO (ctor),  sk(S ++ [x]) = step_x(sk(S)) (add),  merge(a, b) = a (+) b (merge)
+# where step_x depends on the state only through the clause proved for `add`.  Each lemma proves, for the
+# concrete shapes of ZERO / step_x / (+) of one sketch, the two facts the induction on the second stream needs:
+#   base:  a (+) ZERO == a            step:  a (+) step_x(b) == step_x(a (+) b)
+# hence merge(sk(S1), sk(S2)) == sk(S1 ++ S2) for every split (induction on S2, not machine-checked: listed).
+_BA = z3.ArraySort(I_, z3.BoolSort())
+_IA = z3.ArraySort(I_, I_)
+_IIA = z3.ArraySort(I_, z3.ArraySort(I_, I_))
+
+
+def _bloom_homomorphism():
+    a, b, b1, hit = z3.Consts("bl_a bl_b bl_b1 bl_hit", _BA)    # bit sets; hit = {hash(x, j) | j < k}
+    n = z3.Int("bl_n")
+    k, size = z3.Ints("bl_k bl_size")
+    H = z3.Function("bl_H", I_, I_)                               # j -> hash(x, j) for the fixed item x
+    j = z3.Int("bl_j")
+    inr = z3.And(0 <= n, n < size)
+    # the three clauses of BloomFilter.add (old-bits-kept, item-bits-set, nothing-else-set) ...
+    assume(z3.ForAll([n], z3.Implies(z3.And(inr, b[n]), b1[n])))
+    assume(z3.ForAll([j], z3.Implies(z3.And(0 <= j, j < k), z3.And(0 <= H(j), H(j) < size, b1[H(j)]))))
+    assume(z3.ForAll([n], z3.Implies(z3.And(inr, b1[n]), z3.Or(b[n], z3.Exists([j], z3.And(0 <= j, j < k, n == H(j)))))))
+    assume(z3.ForAll([n], hit[n] == z3.Exists([j], z3.And(0 <= j, j < k, n == H(j)))))
+    # ... say exactly: add is union with the item's hash positions
+    oblige("add-is-union-with-hash-positions", z3.ForAll([n], z3.Implies(inr, b1[n] == z3.Or(b[n], hit[n]))))
+    empty = z3.K(I_, z3.BoolVal(False))
+    oblige("base: merge with the empty sketch", z3.SetUnion(a, empty) == a)
+    oblige("step: merge commutes with add", z3.SetUnion(a, z3.SetUnion(b, hit)) == z3.SetUnion(z3.SetUnion(a, b), hit))
+    oblige("merge-commutative", z3.SetUnion(a, b) == z3.SetUnion(b, a))
+
+
+lemma("bloom-merge-homomorphism", _bloom_homomorphism)
+
+
+def _cms_homomorphism():
+    a, b = z3.Consts("cm_a cm_b", _IIA)                           # counters[r][c]
+    col = z3.Const("cm_col", _IA)                                 # r -> hash column of the added item
+    cnt_ = z3.Int("cm_count")
+    r, c = z3.Ints("cm_r cm_c")
+
+    def step(m):        # CountMinSketch.add: increments-the-hashed-counter-of-every-row
+        return lambda r_, c_: m[r_][c_] + z3.If(c_ == col[r_], cnt_, 0)
+
+    def plus(m1, m2):   # CountMinSketch.merge: counters-are-the-sum
+        return lambda r_, c_: m1(r_, c_) + m2(r_, c_)
+    A = lambda r_, c_: a[r_][c_]
+    B = lambda r_, c_: b[r_][c_]
+    oblige("base: merge with the all-zero sketch", z3.ForAll([r, c], plus(A, lambda r_, c_: z3.IntVal(0))(r, c) == A(r, c)))
+    oblige("step: merge commutes with add", z3.ForAll([r, c],
+           plus(A, step(b))(r, c) == plus(A, B)(r, c) + z3.If(c == col[r], cnt_, 0)))
+    oblige("merge-commutative", z3.ForAll([r, c], plus(A, B)(r, c) == plus(B, A)(r, c)))
+    # one-sidedness survives the merge: if both inputs dominate their true counts, the sum dominates the summed count
+    t1, t2 = z3.Ints("cm_t1 cm_t2")
+    oblige("merged-estimate-never-underestimates", z3.Implies(z3.And(A(r, c) >= t1, B(r, c) >= t2), plus(A, B)(r, c) >= t1 + t2))
+
+
+lemma("cms-merge-homomorphism", _cms_homomorphism)
+
+
+def _hll_homomorphism():
+    a, b = z3.Consts("hl_a hl_b", _IA)                            # registers
+    idx, rho, k = z3.Ints("hl_idx hl_rho hl_k")
+
+    def mx(x, y):
+        return z3.If(x >= y, x, y)
+
+    def step(m, k_):    # HyperLogLog.add: register-of-item-raised-to-its-run-length + other-registers-untouched
+        return z3.If(k_ == idx, mx(m[k_], rho), m[k_])
+    assume(z3.ForAll([k], z3.And(a[k] >= 0, b[k] >= 0)))
+    oblige("base: merge with the all-zero sketch", z3.ForAll([k], mx(a[k], 0) == a[k]))
+    oblige("step: merge commutes with add", z3.ForAll([k],
+           mx(a[k], step(b, k)) == z3.If(k == idx, mx(mx(a[k], b[k]), rho), mx(a[k], b[k]))))
+    oblige("merge-commutative-idempotent", z3.ForAll([k], z3.And(mx(a[k], b[k]) == mx(b[k], a[k]), mx(a[k], a[k]) == a[k])))
+
+
+lemma("hll-merge-homomorphism", _hll_homomorphism)
+
+
+def _topk_heavy_hitters():
+    # TopK invariants for an untracked item x (proved above): true(x) <= every tracked count, and
+    # true(x) == 0 while fewer than k items are tracked.  With  sum of tracked counts == N  (space-saving
+    # sum invariant: every branch of `add` changes the counts by exactly `count` in total - clauses
+    # tracked-item-count-raised / new-item-with-room-counted-exactly / replacement-* / other-counters-untouched)
+    # a sum of `size` counts each >= m is >= size * m (arithmetic, cited).  Then x cannot be a heavy hitter.
+    k, size, N, tx, m, S = z3.Ints("tk_k tk_size tk_N tk_true_x tk_min tk_sum")
+    assume(z3.And(k >= 1, 0 <= size, size <= k, tx >= 0, N >= 0))
+    assume(z3.Implies(size < k, tx == 0))               # untracked-items-unseen-while-there-is-room
+    assume(z3.Implies(size > 0, tx <= m))               # untracked-true-count-below-every-counter (m = min count)
+    assume(S == N)                                      # sum of tracked counts == N
+    assume(z3.Implies(size > 0, S >= size * m))         # every count >= m
+    oblige("untracked-item-is-not-above-N-over-k", k * tx <= N)
+    thr = z3.Int("tk_thr")
+    assume(z3.And(thr * k <= N, N < (thr + 1) * k))     # guaranteed_threshold(): is-floor-of-N-over-k
+    oblige("untracked-item-is-at-most-the-guaranteed-threshold", tx <= thr)
+
+
+lemma("topk-heavy-hitters-are-tracked", _topk_heavy_hitters)
+
+# ============================================================================ bounded native stand-ins
+# t-digest quantile / _compress / merge (float interpolation over sorted centroids) and the Merkle tree
+# (_build_tree / _diff_nodes recursion over tree shapes) are not under contract: CPython runs the real code on
+# enumerated / seeded inputs.  Exact float comparisons (no tolerance): the property has none.
+import itertools as _it  # noqa: E402
+import random as _rnd  # noqa: E402
+
+
+def _bounded_tdigest(seed, tier):
+    from happysimulator.sketching.tdigest import TDigest
+    ev, bad = 0, []
+    n_seeds, n_streams = (40, 40) if tier != "thorough" else (400, 60)
+    for sd in range(seed, seed + n_seeds):
+        rng = _rnd.Random(sd)
+        for s in range(n_streams):
+            comp = rng.choice([1.0, 5.0, 20.0, 100.0])
+            kind = rng.randrange(5)
+            n = rng.choice([1, 2, 3, 10, 50, 300])
+            if kind == 0:
+                vals = [rng.random() * 100 for _ in range(n)]
+            elif kind == 1:
+                vals = [float(rng.randrange(4)) for _ in range(n)]          # heavy duplicates
+            elif kind == 2:
+                vals = [rng.paretovariate(1.2) for _ in range(n)]           # skewed
+            elif kind == 3:
+                vals = [rng.choice([7.25, 1.6752325688574499, 0.1])] * n    # constant stream
+            else:
+                vals = [rng.choice([-1e9, 1e-9, 3.0, 1e9]) for _ in range(n)]
+            td, N, true = TDigest(compression=comp), 0, []
+            for v in vals:
+                w = rng.choice([1, 1, 1, 2, 5])
+                td.add(v, w)
+                N += w
+                true += [v] * w
+            if rng.random() < 0.3:          # the same stream split at a random point into two merged halves
+                td, t2 = TDigest(compression=comp), TDigest(compression=comp)
+                cut = rng.randrange(len(true) + 1)
+                for v in true[:cut]:
+                    td.add(v)
+                for v in true[cut:]:
+                    t2.add(v)
+                td.merge(t2)
+            qs = sorted([0.0, 1.0] + [i / 50 for i in range(51)] + [rng.random() for _ in range(30)])
+            out = [td.quantile(q) for q in qs]
+            ev += len(qs)
+            lo, hi = min(true), max(true)
+            where = {"seed": sd, "stream": s, "compression": comp, "n": len(true)}
+            if td.min != lo or td.max != hi:
+                bad.append({"case": "tdigest-min-max-are-the-streams", **where})
+            if sum(c.count for c in td._centroids) != N or td._total_count != N:
+                bad.append({"case": "tdigest-centroid-weights-sum-to-N", **where})
+            for a, b, qa, qb in zip(out, out[1:], qs, qs[1:]):
+                if a > b:
+                    bad.append({"case": "tdigest-quantile-non-decreasing", **where, "q1": qa, "q2": qb, "v1": a, "v2": b})
+                    break
+            off = [(q, o) for q, o in zip(qs, out) if o < lo or o > hi]
+            if off:
+                bad.append({"case": "tdigest-quantile-within-min-max", **where, "min": lo, "max": hi, "q": off[0][0], "v": off[0][1]})
+    return {"evaluations": ev, "violations": bad[:20]}
+
+
+def _merkle_pair_ok(m1, t1, m2, t2):
+    d = t1.diff(t2)
+    if (d == []) != (m1 == m2):
+        return {"case": "merkle-diff-empty-iff-maps-equal", "a": m1, "b": m2, "diff": repr(d)}
+    for k in set(m1) | set(m2):
+        if m1.get(k, "<absent>") != m2.get(k, "<absent>") and not any(r.contains(k) for r in d):
+            return {"case": "merkle-diff-covers-every-differing-key", "a": m1, "b": m2, "key": k, "diff": repr(d)}
+    return None
+
+
+def _bounded_merkle(seed, tier):
+    from happysimulator.sketching.merkle_tree import MerkleTree
+    ev, bad = 0, []
+    keys = ["a", "b", "c", "d", "e"][: (4 if tier != "thorough" else 5)]
+    maps = [{k: v for k, v in zip(keys, combo) if v is not None} for combo in _it.product([None, 0, 1], repeat=len(keys))]
+    trees = [MerkleTree.build(m) for m in maps]
+    for (m1, t1), (m2, t2) in _it.product(list(zip(maps, trees)), repeat=2):      # every pair of maps, exhaustively
+        ev += 1
+        r = _merkle_pair_ok(m1, t1, m2, t2)
+        if r:
+            bad.append(r)
+    rng = _rnd.Random(seed)
+    for _ in range(300 if tier != "thorough" else 5000):                          # larger maps, seeded
+        univ = [f"k{i:03d}" for i in range(rng.choice([6, 17, 40]))]
+        m1 = {k: rng.randrange(3) for k in univ if rng.random() < 0.7}
+        m2 = dict(m1)
+        for k in rng.sample(univ, rng.randrange(0, 4)):
+            if rng.random() < 0.5:
+                m2[k] = rng.randrange(3)
+            else:
+                m2.pop(k, None)
+        ev += 1
+        t1, t2 = MerkleTree.build(m1), MerkleTree.build(m2)
+        for k, v in list(m2.items())[:2]:       # the incremental API reaches the same tree as build()
+            t1b = MerkleTree.build({kk: vv for kk, vv in m2.items() if kk != k})
+            t1b.update(k, v)
+            if t1b.root_hash != t2.root_hash:
+                bad.append({"case": "merkle-update-equals-build", "map": m2, "key": k})
+        r = _merkle_pair_ok(m1, t1, m2, t2)
+        if r:
+            bad.append(r)
+    return {"evaluations": ev, "violations": bad[:20]}
+
+
+PROPERTY["bounded"] = [
+    {"name": "tdigest-quantiles", "fn": _bounded_tdigest,
+     "bound": "seeded streams (uniform / duplicate-heavy / skewed / constant / extreme magnitudes, weights 1-5, "
+              "n <= 300 adds, compression in {1,5,20,100}, 30% built as two merged halves); 83 quantile levels each; "
+              "quick: 40 seeds x 40 streams, thorough: 400 x 60"},
+    {"name": "merkle-diff", "fn": _bounded_merkle,
+     "bound": "all ordered pairs of maps over <= 4 keys (thorough: 5) x values {absent,0,1} exhaustively, plus "
+              "300 (thorough 5000) seeded pairs of maps with up to 40 keys differing in <= 3 keys"},
+]
